@@ -1,7 +1,446 @@
 /- helper lemmas for TjdProps/C06.lean -/
 import Mathlib.Algebra.Ring.Defs
+import Mathlib.Logic.Function.Iterate
 import TjdModel.Autojac.Heap
 import TjdModel.Autojac.MtlSpec
 namespace Tjd.Autojac
+
+section heap
+variable {α : Type} [Add α]
+
+theorem accumulateH_nil (c : Bool) (H : Heap α) : accumulateH c [] H = H := rfl
+
+theorem accumulateH_cons (c : Bool) (e : Key × Sid × Vec α) (g : List (Key × Sid × Vec α))
+    (H : Heap α) : accumulateH c (e :: g) H = accumulateH c g (accumulateH c [e] H) := rfl
+
+omit [Add α] in
+/-- a heap whose live `.grad`s are (storage-wise) among those of an unaliased heap is unaliased -/
+theorem Heap.Unaliased.of_sub {H H' : Heap α} (hU : H.Unaliased)
+    (hsub : ∀ j s v, H'.grad j = some (s, v) → ∃ v', H.grad j = some (s, v'))
+    (hn : H.next ≤ H'.next) : H'.Unaliased := by
+  refine ⟨?_, ?_⟩
+  · intro j k s v s' v' hj hk hs
+    obtain ⟨w, hw⟩ := hsub j s v hj
+    obtain ⟨w', hw'⟩ := hsub k s' v' hk
+    exact hU.1 j k s w s' w' hw hw' hs
+  · intro j s v hj
+    obtain ⟨w, hw⟩ := hsub j s v hj
+    exact Nat.lt_of_lt_of_le (hU.2 j s w hw) hn
+
+/-- one accumulation step when the key already has a `.grad` -/
+theorem step_some (H : Heap α) (hU : H.Unaliased) (e : Key × Sid × Vec α) (s : Sid) (old : Vec α)
+    (he : H.grad e.1 = some (s, old)) :
+    (accumulateH true [e] H).next = H.next ∧
+    ∀ j, (accumulateH true [e] H).grad j =
+      if j = e.1 then some (s, vadd old e.2.2) else H.grad j := by
+  unfold accumulateH
+  simp only [List.foldl_cons, List.foldl_nil, he]
+  refine ⟨trivial, ?_⟩
+  intro j
+  by_cases hj : j = e.1
+  · simp [hj]
+  · simp only [hj, if_false]
+    cases hjg : H.grad j with
+    | none => rfl
+    | some q =>
+      obtain ⟨s', v⟩ := q
+      have : s' ≠ s := fun h => hj (hU.1 j e.1 s' v s old hjg he h)
+      simp [this]
+
+/-- one accumulation step when the key has no `.grad` -/
+theorem step_none (H : Heap α) (e : Key × Sid × Vec α) (he : H.grad e.1 = none) :
+    (accumulateH true [e] H).next = H.next + 1 ∧
+    ∀ j, (accumulateH true [e] H).grad j =
+      if j = e.1 then some (H.next, e.2.2) else H.grad j := by
+  unfold accumulateH
+  simp only [List.foldl_cons, List.foldl_nil, he]
+  exact ⟨rfl, fun _ => rfl⟩
+
+theorem step_unaliased (H : Heap α) (hU : H.Unaliased) (e : Key × Sid × Vec α) :
+    (accumulateH true [e] H).Unaliased := by
+  cases he : H.grad e.1 with
+  | some p =>
+    obtain ⟨s, old⟩ := p
+    obtain ⟨hn, hg⟩ := step_some H hU e s old he
+    refine hU.of_sub ?_ (by rw [hn]; exact Nat.le_refl _)
+    intro j s' v hj
+    rw [hg] at hj
+    by_cases hje : j = e.1
+    · simp only [hje, if_true, Option.some.injEq, Prod.mk.injEq] at hj
+      exact ⟨old, by rw [hje, he, hj.1]⟩
+    · simp only [hje, if_false] at hj
+      exact ⟨v, hj⟩
+  | none =>
+    obtain ⟨hn, hg⟩ := step_none H e he
+    refine ⟨?_, ?_⟩
+    · intro j k s v s' v' hj hk hs
+      rw [hg] at hj hk
+      by_cases hje : j = e.1 <;> by_cases hke : k = e.1
+      · rw [hje, hke]
+      · simp only [hje, hke, if_true, if_false, Option.some.injEq, Prod.mk.injEq] at hj hk
+        have := hU.2 k s' v' hk
+        obtain ⟨h1, -⟩ := hj
+        subst hs; subst h1
+        exact absurd this (Nat.lt_irrefl _)
+      · simp only [hje, hke, if_true, if_false, Option.some.injEq, Prod.mk.injEq] at hj hk
+        have := hU.2 j s v hj
+        obtain ⟨h1, -⟩ := hk
+        subst hs; subst h1
+        exact absurd this (Nat.lt_irrefl _)
+      · simp only [hje, hke, if_false] at hj hk
+        exact hU.1 j k s v s' v' hj hk hs
+    · intro j s v hj
+      rw [hg] at hj
+      rw [hn]
+      by_cases hje : j = e.1
+      · simp only [hje, if_true, Option.some.injEq, Prod.mk.injEq] at hj
+        rw [← hj.1]; exact Nat.lt_succ_self _
+      · simp only [hje, if_false] at hj
+        exact Nat.lt_succ_of_lt (hU.2 j s v hj)
+
+theorem step_next_le (H : Heap α) (hU : H.Unaliased) (e : Key × Sid × Vec α) :
+    H.next ≤ (accumulateH true [e] H).next := by
+  cases he : H.grad e.1 with
+  | some p =>
+    obtain ⟨s, old⟩ := p
+    rw [(step_some H hU e s old he).1]; exact Nat.le_refl _
+  | none => rw [(step_none H e he).1]; exact Nat.le_succ _
+
+theorem step_frame (H : Heap α) (hU : H.Unaliased) (e : Key × Sid × Vec α) (k : Key)
+    (hk : k ≠ e.1) : (accumulateH true [e] H).grad k = H.grad k := by
+  cases he : H.grad e.1 with
+  | some p =>
+    obtain ⟨s, old⟩ := p
+    rw [(step_some H hU e s old he).2]; simp [hk]
+  | none => rw [(step_none H e he).2]; simp [hk]
+
+/-- abstract view of one step -/
+theorem step_abs (H : Heap α) (hU : H.Unaliased) (e : Key × Sid × Vec α) (k : Key) :
+    (accumulateH true [e] H).abs k = if k = e.1 then accum (H.abs k) e.2.2 else H.abs k := by
+  unfold Heap.abs
+  cases he : H.grad e.1 with
+  | some p =>
+    obtain ⟨s, old⟩ := p
+    rw [(step_some H hU e s old he).2]
+    by_cases hk : k = e.1
+    · simp [hk, he, accum]
+    · simp [hk]
+  | none =>
+    rw [(step_none H e he).2]
+    by_cases hk : k = e.1
+    · simp [hk, he, accum]
+    · simp [hk]
+
+theorem accumulateH_unaliased (g : List (Key × Sid × Vec α)) (H : Heap α) (hU : H.Unaliased) :
+    (accumulateH true g H).Unaliased := by
+  induction g generalizing H with
+  | nil => exact hU
+  | cons e g ih => rw [accumulateH_cons]; exact ih _ (step_unaliased H hU e)
+
+theorem accumulateH_next_le (g : List (Key × Sid × Vec α)) (H : Heap α) (hU : H.Unaliased) :
+    H.next ≤ (accumulateH true g H).next := by
+  induction g generalizing H with
+  | nil => exact Nat.le_refl _
+  | cons e g ih =>
+    rw [accumulateH_cons]
+    exact Nat.le_trans (step_next_le H hU e) (ih _ (step_unaliased H hU e))
+
+theorem accumulateH_frame (g : List (Key × Sid × Vec α)) (H : Heap α) (hU : H.Unaliased) (k : Key)
+    (hk : k ∉ g.map (·.1)) : (accumulateH true g H).grad k = H.grad k := by
+  induction g generalizing H with
+  | nil => rfl
+  | cons e g ih =>
+    simp only [List.map_cons, List.mem_cons, not_or] at hk
+    rw [accumulateH_cons, ih _ (step_unaliased H hU e) hk.2]
+    exact step_frame H hU e k hk.1
+
+theorem accumulateH_keeps_storage (g : List (Key × Sid × Vec α)) (H : Heap α) (hU : H.Unaliased)
+    (k : Key) (s : Sid) (v : Vec α) (hk : H.grad k = some (s, v)) :
+    ∃ v', (accumulateH true g H).grad k = some (s, v') := by
+  induction g generalizing H v with
+  | nil => exact ⟨v, hk⟩
+  | cons e g ih =>
+    rw [accumulateH_cons]
+    by_cases hke : k = e.1
+    · have he : H.grad e.1 = some (s, v) := hke ▸ hk
+      have h1 : (accumulateH true [e] H).grad k = some (s, vadd v e.2.2) := by
+        rw [(step_some H hU e s v he).2]; simp [hke]
+      exact ih _ (step_unaliased H hU e) _ h1
+    · have h1 : (accumulateH true [e] H).grad k = some (s, v) := by
+        rw [step_frame H hU e k hke]; exact hk
+      exact ih _ (step_unaliased H hU e) _ h1
+
+theorem accumulateH_created_fresh (g : List (Key × Sid × Vec α)) (H : Heap α) (hU : H.Unaliased)
+    (e : Key × Sid × Vec α) (he : e ∈ g) (hnone : H.grad e.1 = none) :
+    ∃ s v, (accumulateH true g H).grad e.1 = some (s, v) ∧ H.next ≤ s := by
+  induction g generalizing H with
+  | nil => cases he
+  | cons e0 g ih =>
+    rw [accumulateH_cons]
+    have hU1 := step_unaliased H hU e0
+    by_cases hk : e.1 = e0.1
+    · have h0 : H.grad e0.1 = none := hk ▸ hnone
+      have h1 : (accumulateH true [e0] H).grad e.1 = some (H.next, e0.2.2) := by
+        rw [(step_none H e0 h0).2]; simp [hk]
+      obtain ⟨v', hv'⟩ := accumulateH_keeps_storage g _ hU1 e.1 _ _ h1
+      exact ⟨H.next, v', hv', Nat.le_refl _⟩
+    · have heg : e ∈ g := by
+        rcases List.mem_cons.1 he with h | h
+        · exact absurd (by rw [h]) hk
+        · exact h
+      have h1 : (accumulateH true [e0] H).grad e.1 = none := by
+        rw [step_frame H hU e0 e.1 hk]; exact hnone
+      obtain ⟨s, v, hsv, hle⟩ := ih _ hU1 heg h1
+      exact ⟨s, v, hsv, Nat.le_trans (step_next_le H hU e0) hle⟩
+
+theorem accumulateH_abs (g : List (Key × Sid × Vec α)) (H : Heap α) (hU : H.Unaliased)
+    (hnd : (g.map (·.1)).Nodup) (k : Key) :
+    (accumulateH true g H).abs k =
+      match g.find? (·.1 == k) with
+      | some e => accum (H.abs k) e.2.2
+      | none => H.abs k := by
+  induction g generalizing H with
+  | nil => rfl
+  | cons e g ih =>
+    simp only [List.map_cons, List.nodup_cons] at hnd
+    rw [accumulateH_cons, ih _ (step_unaliased H hU e) hnd.2, step_abs H hU e k]
+    by_cases hk : k = e.1
+    · subst hk
+      have hnf : g.find? (·.1 == e.1) = none := by
+        rw [List.find?_eq_none]
+        intro x hx hxe
+        exact hnd.1 (List.mem_map.2 ⟨x, hx, by simpa using hxe⟩)
+      simp [hnf]
+    · have hne : (e.1 == k) = false := by simpa using fun h => hk h.symm
+      simp [hne, hk]
+
+omit [Add α] in
+/-- an in-place write through the storage of `j` on an unaliased heap -/
+theorem write_through_frame (H : Heap α) (hU : H.Unaliased) (j k : Key) (hjk : j ≠ k) (s : Sid)
+    (v : Vec α) (hj : H.grad j = some (s, v)) (f : Vec α → Vec α) :
+    ({ H with grad := fun i => match H.grad i with
+                        | some (s', w) => if s' = s then some (s', f w) else some (s', w)
+                        | none => none } : Heap α).grad k = H.grad k ∧
+    ({ H with grad := fun i => match H.grad i with
+                        | some (s', w) => if s' = s then some (s', f w) else some (s', w)
+                        | none => none } : Heap α).Unaliased := by
+  refine ⟨?_, hU.of_sub ?_ (Nat.le_refl _)⟩
+  · simp only
+    cases hkg : H.grad k with
+    | none => rfl
+    | some q =>
+      obtain ⟨s', w⟩ := q
+      have : s' ≠ s := fun h => hjk (hU.1 j k s v s' w hj hkg h.symm)
+      simp [this]
+  · intro i s1 v1 hi
+    simp only at hi
+    cases hig : H.grad i with
+    | none => rw [hig] at hi; cases hi
+    | some q =>
+      obtain ⟨s', w⟩ := q
+      rw [hig] at hi
+      simp only at hi
+      split at hi <;>
+        (simp only [Option.some.injEq, Prod.mk.injEq] at hi; exact ⟨w, by rw [← hi.1]⟩)
+
+theorem user_frame [Zero α] (H : Heap α) (hU : H.Unaliased) (op : UserOp α) (k : Key)
+    (hk : match op with | .zero j => j ≠ k | .setNone j => j ≠ k | .addConst j _ => j ≠ k) :
+    (H.user op).grad k = H.grad k ∧ (H.user op).Unaliased := by
+  cases op with
+  | zero j =>
+    simp only at hk
+    simp only [Heap.user]
+    cases hj : H.grad j with
+    | none => exact ⟨rfl, hU⟩
+    | some p =>
+      obtain ⟨s, v⟩ := p
+      exact write_through_frame H hU j k hk s v hj _
+  | setNone j =>
+    simp only at hk
+    simp only [Heap.user]
+    refine ⟨?_, hU.of_sub ?_ (Nat.le_refl _)⟩
+    · have : ¬ k = j := fun h => hk h.symm
+      simp [this]
+    · intro i s v hi
+      simp only at hi
+      split at hi
+      · cases hi
+      · exact ⟨v, hi⟩
+  | addConst j c =>
+    simp only at hk
+    simp only [Heap.user]
+    cases hj : H.grad j with
+    | none => exact ⟨rfl, hU⟩
+    | some p =>
+      obtain ⟨s, v⟩ := p
+      exact write_through_frame H hU j k hk s v hj _
+
+end heap
+
+section abstract
+variable {α : Type}
+
+theorem accFold_frame [Add α] (g : GDict α) (h : Grads α) (k : Key) (hk : k ∉ g.map (·.1)) :
+    (g.foldl (fun (h : Grads α) (kv : Key × Vec α) =>
+        match h kv.1 with
+        | some old => h.set kv.1 (some (vadd old kv.2))
+        | none => h.set kv.1 (some kv.2)) h) k = h k := by
+  induction g generalizing h with
+  | nil => rfl
+  | cons kv g ih =>
+    simp only [List.map_cons, List.mem_cons, not_or] at hk
+    rw [List.foldl_cons, ih _ hk.2]
+    cases hh : h kv.1 <;> simp [Grads.set, hk.1]
+
+theorem accumulateT_frame [Add α] (E : Engine α) (g : GDict α) (h : Grads α) (k : Key)
+    (hk : k ∉ g.map (·.1)) : (accumulateT E g h).1 k = h k := by
+  unfold accumulateT
+  split
+  · exact accFold_frame g h k hk
+  · rfl
+
+theorem aggregateT_keys (E : Engine α) (A : Mat α → Except Err (Vec α)) (ko : List Key)
+    (j : JDict α) (g : GDict α) (h : aggregateT E A ko j = .ok g) :
+    ∀ k ∈ g.map (·.1), k ∈ ko := by
+  unfold aggregateT at h
+  split at h
+  · injection h with h; subst h; simp
+  · dsimp only at h
+    generalize A _ = r at h
+    cases r with
+    | error e => simp [bind, Except.bind] at h
+    | ok v =>
+      simp only [bind, Except.bind] at h
+      split at h
+      · simp [throw, throwThe, MonadExceptOf.throw] at h
+      · simp only [pure, Except.pure, Except.ok.injEq] at h
+        subst h
+        intro k hk
+        obtain ⟨kv, hkv, rfl⟩ := List.mem_map.1 hk
+        exact (List.of_mem_zip hkv).1
+
+theorem selectT_keys {β : Type} (keys : List Key) (d : List (Key × β)) :
+    ∀ k ∈ (selectT keys d).map (·.1), k ∈ keys := by
+  intro k hk
+  obtain ⟨kv, hkv, rfl⟩ := List.mem_map.1 hk
+  unfold selectT at hkv
+  obtain ⟨k', hk', hf⟩ := List.mem_filterMap.1 hkv
+  have := List.find?_some hf
+  simp only [beq_iff_eq] at this
+  rw [this]; exact hk'
+
+theorem iterate_accum [Add α] (f : Grads α → Grads α) (inputs : List Key) (sl : Key → Vec α)
+    (hf : ∀ g k, f g k = if k ∈ inputs then accum (g k) (sl k) else g k) (n : Nat) (h : Grads α)
+    (k : Key) :
+    (Nat.iterate f n h) k =
+      if k ∈ inputs then Nat.iterate (fun g => accum g (sl k)) n (h k) else h k := by
+  induction n generalizing h with
+  | zero => simp
+  | succ n ih =>
+    rw [Function.iterate_succ_apply, ih (f h), Function.iterate_succ_apply, hf h k]
+    by_cases hk : k ∈ inputs <;> simp [hk]
+
+variable [Zero α] [Add α] [Mul α] [One α]
+
+theorem taskT_frame (E : Engine α) (features tp : List Key) (loss : Key) (h : Grads α) (k : Key)
+    (hk : k ∉ tp) : (taskT E features tp loss h).1 k = h k := by
+  unfold taskT
+  dsimp only
+  split
+  · rfl
+  · next g hg =>
+    have := accumulateT_frame E (selectT tp g) h k (fun hm => hk (selectT_keys tp g k hm))
+    rcases hacc : accumulateT E (selectT tp g) h with ⟨h', err⟩
+    rw [hacc] at this
+    cases err <;> simpa using this
+
+theorem runTasks_frame (E : Engine α) (features : List Key) (tasks : List (List Key × Key))
+    (h : Grads α) (k : Key) (hk : ∀ tl ∈ tasks, k ∉ tl.1) :
+    (runTasks E features tasks h).1 k = h k := by
+  induction tasks generalizing h with
+  | nil => rfl
+  | cons tl rest ih =>
+    obtain ⟨tp, loss⟩ := tl
+    have h1 := taskT_frame E features tp loss h k (hk (tp, loss) List.mem_cons_self)
+    have h2 := fun h' => ih h' (fun tl htl => hk tl (List.mem_cons_of_mem _ htl))
+    unfold runTasks
+    rcases ht : taskT E features tp loss h with ⟨h1', r⟩
+    rw [ht] at h1
+    cases r with
+    | error e => simpa using h1
+    | ok d =>
+      simp only at h1 ⊢
+      specialize h2 h1'
+      rcases hr : runTasks E features rest h1' with ⟨h2', r2⟩
+      rw [hr] at h2
+      cases r2 <;> simp only at h2 ⊢ <;> rw [h2, h1]
+
+theorem backward_go_frame (E : Engine α) (tensors inputs : List Key)
+    (A : Mat α → Except Err (Vec α)) (retain : Bool) (h : Grads α) (chunk : Option Nat) (k : Key)
+    (hk : k ∉ inputs) : (backward.go E tensors inputs A retain h chunk).grads k = h k := by
+  unfold backward.go
+  split
+  · rfl
+  split
+  · rfl
+  dsimp only
+  split
+  · rfl
+  · split
+    · rfl
+    · next g1 hg1 =>
+      exact accumulateT_frame E g1 h k (fun hm => hk (aggregateT_keys E A inputs _ g1 hg1 k hm))
+
+theorem backward_frame' (E : Engine α) (tensors inputs : List Key) (A : Mat α → Except Err (Vec α))
+    (chunk : Option Int) (retain : Bool) (h : Grads α) (k : Key) (hk : k ∉ inputs) :
+    (backward E tensors inputs A chunk retain h).grads k = h k := by
+  unfold backward
+  split
+  · split
+    · rfl
+    · exact backward_go_frame E tensors inputs A retain h _ k hk
+  · exact backward_go_frame E tensors inputs A retain h _ k hk
+
+theorem mtl_frame' (E : Engine α) (ndim : Key → Nat) (losses features : List Key)
+    (tps : List (List Key)) (shared : List Key) (A : Mat α → Except Err (Vec α))
+    (chunk : Option Int) (retain : Bool) (h : Grads α) (k : Key)
+    (hk : k ∉ shared) (hk' : k ∉ tps.flatten) :
+    (mtlBackward E ndim losses features tps shared A chunk retain h).grads k = h k := by
+  have hrt : (runTasks E features (List.zip tps losses) h).1 k = h k :=
+    runTasks_frame E features _ h k (by
+      intro tl htl hmem
+      obtain ⟨tp, l⟩ := tl
+      exact hk' (List.mem_flatten.2 ⟨tp, (List.of_mem_zip htl).1, hmem⟩))
+  have key : ∀ chunkN : Option Nat,
+      (match runTasks E features (List.zip tps losses) h with
+        | (h1, .error e) => (⟨h1, some e, []⟩ : Outcome α)
+        | (h1, .ok ds) =>
+          match jacT E features shared chunkN retain (stackT E ds) with
+          | .error e => ⟨h1, some e, []⟩
+          | .ok (j1, sweeps) =>
+            match aggregateT E A shared j1 with
+            | .error e => ⟨h1, some e, sweeps⟩
+            | .ok g1 => ⟨(accumulateT E g1 h1).1, (accumulateT E g1 h1).2, sweeps⟩).grads k = h k := by
+    intro chunkN
+    rcases hr : runTasks E features (List.zip tps losses) h with ⟨h1, r⟩
+    rw [hr] at hrt
+    simp only at hrt
+    cases r with
+    | error e => exact hrt
+    | ok ds =>
+      simp only
+      split
+      · exact hrt
+      · split
+        · exact hrt
+        · next g1 hg1 =>
+          rw [← hrt]
+          exact accumulateT_frame E g1 h1 k
+            (fun hm => hk (aggregateT_keys E A shared _ g1 hg1 k hm))
+  unfold mtlBackward
+  dsimp only
+  repeat (first | rfl | exact key _ | split)
+
+end abstract
 
 end Tjd.Autojac
